@@ -41,8 +41,9 @@ def case_strategy(tier):
         kind = draw(st.sampled_from(["markov"] * 4 + ["lagged"]))
         sem = draw(st.sampled_from(SEMIRINGS))
         if kind == "markov":
-            dur = R(1, maxdur)
-            npairs = R(1, 3)
+            # longer chains in both tiers for a third of the cases (segment counts 5, 6 need durations 10, 12)
+            dur = R(1, maxdur) if R(0, 2) else R(9, 13)
+            npairs = R(1, 3) if dur <= 8 else R(1, 2)
             names = draw(st.permutations(NAMEPOOL))
             pairs = [(names[2 * i], names[2 * i + 1], R(1, 3 if npairs < 3 else 2)) for i in range(npairs)]
             nb = R(0, 2)
@@ -54,7 +55,10 @@ def case_strategy(tier):
                 dep_batch=draw(st.booleans()),
                 # a free real parameter multiplying / added to every factor, or one parameter per time step (w[time], w: Reals[T])
                 real=draw(st.sampled_from([False, False, True, "per_step"])),
-                algo=algo, segments=R(1, dur), a=R(0, 9973), b=R(1, 97),
+                # segment counts: mostly divisors of the duration (an even split), otherwise any count
+                algo=algo, segments=draw(st.sampled_from([k_ for k_ in range(1, dur + 1) if dur % k_ == 0])) if R(0, 4) else R(1, dur), a=R(0, 9973), b=R(1, 97),
+                # strongly negative log-potentials in the semirings whose product is +: partial sums far below log(tiny)
+                scale=draw(st.sampled_from([1.0, 1.0, 1.0, -60.0, -100.0, -400.0])) if sem.endswith("_add") else 1.0,
                 time=draw(st.sampled_from(["t", "time", "pa_t"])),
             )
         lagsets = [(1,), (2,), (3,), (1, 2), (1, 3), (2, 3), (1, 2, 3)]
@@ -86,7 +90,7 @@ def build_markov(case):
         + tuple(sizes)
     )
     n = int(np.prod(shape))
-    data = expand(case["a"], case["b"], n).reshape(shape)
+    data = expand(case["a"], case["b"], n).reshape(shape) * case.get("scale", 1.0)
     full_shape = (dur,) + tuple(s for _, s in batch) + tuple(sizes) + tuple(sizes)
     full = np.broadcast_to(data, full_shape).copy()
     # funsor tensor carries only the inputs it depends on
@@ -326,30 +330,33 @@ class C10(Prop):
             stt.mark_nontrivial(case_hash(case))
 
     def extra(self, tier, shard, nshards, stt, seed):
-        if tier != "thorough":
-            return
+        """Grid: every duration 1..13 x every segment count x time-dependent and time-homogeneous transitions
+        (quick: two semirings rotating with the seed, one pair; thorough: all semirings, one and two pairs)."""
         i = 0
-        for dur in range(1, 13):
+        quick = tier != "thorough"
+        sems = [SEMIRINGS[(seed + k_) % len(SEMIRINGS)] for k_ in (0, 3)] if quick else SEMIRINGS
+        for dur in range(1, 14):
             for seg in range(1, dur + 1):
-                for sem in SEMIRINGS:
-                    for npairs in (1, 2):
-                        for algo in ("mixed", "sequential", "markov_eager"):
-                            if algo != "mixed" and seg != 1:
-                                continue
-                            i += 1
-                            if i % nshards != shard:
-                                continue
-                            case = dict(kind="markov", sem=sem, duration=dur, pairs=[["zb", "pa", 2], ["ad", "mc", 2]][:npairs], batch=[["u", 2]],
-                                        dep_time=True, dep_batch=True, real=False, algo=algo, segments=seg, a=i % 9973, b=1 + i % 97, time="t")
-                            stt.evaluations += 1
-                            try:
-                                self.check_markov(case, stt)
-                            except Decline as d:
-                                stt.decline(d.bucket)
-                            except Violation as v:
-                                stt.violations.append(dict(bucket=v.bucket + "|grid", message=v.message, case=case))
-                                return
-        stt.exhaustive = True
+                for sem in sems:
+                    for npairs in ((1,) if quick else (1, 2)):
+                        for dep_time in (True, False):
+                            for algo in ("mixed", "sequential", "markov_eager"):
+                                if algo != "mixed" and seg != 1:
+                                    continue
+                                i += 1
+                                if i % nshards != shard:
+                                    continue
+                                case = dict(kind="markov", sem=sem, duration=dur, pairs=[["zb", "pa", 2], ["ad", "mc", 2]][:npairs], batch=[["u", 2]] if dep_time else [],
+                                            dep_time=dep_time, dep_batch=True, real=False, algo=algo, segments=seg, a=(i + 7 * seed) % 9973, b=1 + (i + seed) % 97, time="t")
+                                stt.evaluations += 1
+                                try:
+                                    self.check_markov(case, stt)
+                                except Decline as d:
+                                    stt.decline(d.bucket)
+                                except Violation as v:
+                                    stt.violations.append(dict(bucket=v.bucket + "|grid", message=v.message, case=case))
+                                    return
+        stt.exhaustive = not quick
 
 
 PROP = C10()
